@@ -804,3 +804,8 @@ def m10_aggregates_after_removing_a_subtree(S):
 OBLIGATIONS = [m1_aggregate_steps, m2_initial_and_reset, m3_score_key, m4_evict_key, m5_reported_info, m6_score_key_transitive, m7_counters, m8_links_recorded_for_a_new_entry, m9_aggregates_after_a_late_parent, m10_aggregates_after_removing_a_subtree]
 TECHNIQUE = "symbolic execution of rustc MIR -> integer-theory SMT (cvc5 + z3); counterexamples replayed in a native build of the same source files"
 DESIGN_REF = "DESIGN.md section 4 (C11)"
+
+# ---- extended claim (session 3)
+BOUNDS = dict(BOUNDS, m8="record_entry_descendants: one output, reader / consumer presence symbolic", m9_m10="one step from the three-entry state G -> P -> C (entry table modelled by three symbolic entries, link closure as environment); all sizes/cycles/fees below 2^32")
+LEVEL_TEXT = LEVEL_TEXT + " m8: links recorded for a new entry (dep readers AND consumer become children, parents/children sets, which propagation runs). m9/m10: one-step aggregate consistency of add_entry with already pooled descendants and of remove_entry_and_descendants, executing the real update_*_index_key / add_*/sub_*_weight code over a three-entry model (m9: known finding; m10: defect repaired)."
+LEVEL_NOTE = "Partial claim (entry-level kernels, link recording, two one-step aggregate scenarios). The multi-index container, edges/links maps themselves, RBF candidate sets and eviction over the whole pool: outside."
